@@ -218,6 +218,21 @@ pub fn run_c09(tier: Tier) -> Report {
         }
     }
     shapes.extend([(352usize, 288usize), (176, 144), (64, 9), (9, 64), (10, 10), (17, 11)]);
+    // large planes (more than 2^18 and 2^20 samples; very wide, very tall)
+    let mut big: Vec<(usize, usize)> = vec![(704, 576), (1024, 264), (512, 520), (2056, 24), (24, 2056), (4112, 17)];
+    if tier.thorough() {
+        big.extend([(1408, 1152), (2048, 1024), (65535, 9), (9, 65535)]);
+    }
+    big.par_iter().for_each(|&(w, h)| {
+        for s in [1u8, 6, 12] {
+            for kind in [0usize, 1, 5] {
+                let data = geometry_content(kind, w, h, seed);
+                check_image(&rep, "C09", w, h, s, &data, GEOM_NAMES[kind], true);
+            }
+        }
+        rep.add_transitions(9);
+    });
+    rep.add_states(big.len() as u64 * 9);
     shapes.par_iter().for_each(|&(w, h)| {
         for s in 1..=12u8 {
             for kind in 0..6 {
@@ -284,6 +299,8 @@ pub fn run_c16(tier: Tier) -> Report {
         }
     }
     shapes.extend([(1usize, 1000usize), (1000, 1), (1000, 0), (2048, 2), (9, 300), (300, 9)]);
+    // beyond the largest standard picture: Sorenson sizes are 16-bit
+    shapes.extend([(2050, 8), (2056, 16), (2049, 9), (4100, 9), (4112, 7), (9, 4100), (65535, 8), (8, 65535), (65535, 1), (1, 65535)]);
     shapes.par_iter().for_each(|&(w, h)| {
         for s in 1..=12u8 {
             for kind in [0usize, 4] {
